@@ -393,8 +393,26 @@ func (r *Reader) parseWorksheet(data []byte, name string, index int) (*Sheet, er
 		}
 	}
 
-	// Apply merged region info to cells
+	// Apply merged region info to cells. The regions of a valid sheet do not overlap, so
+	// together they cover at most the grid: refuse a sheet whose regions cover more than the
+	// cell budget (every region may otherwise cover the whole grid again).
+	mergeBudget := maxSheetCells
 	for _, mr := range sheet.MergedRegions {
+		endRow, endCol := mr.EndRow, mr.EndCol
+		if endRow >= len(sheet.Rows) {
+			endRow = len(sheet.Rows) - 1
+		}
+		if endCol > maxCol {
+			endCol = maxCol
+		}
+		if mr.StartRow < 0 || mr.StartCol < 0 || mr.StartRow > endRow || mr.StartCol > endCol {
+			continue
+		}
+		covered := (endRow - mr.StartRow + 1) * (endCol - mr.StartCol + 1)
+		if covered > mergeBudget {
+			return nil, fmt.Errorf("worksheet %q: merged regions cover more than %d cells", name, maxSheetCells)
+		}
+		mergeBudget -= covered
 		for row := mr.StartRow; row <= mr.EndRow && row < len(sheet.Rows); row++ {
 			for col := mr.StartCol; col <= mr.EndCol && col < len(sheet.Rows[row]); col++ {
 				cell := &sheet.Rows[row][col]
